@@ -14,6 +14,7 @@ import common
 from common import coq_str, coq_list, coq_z
 
 THEOREMS = ["C01_init", "C01_step", "C01_reachable", "C01_public", "C01_atomic", "C01_atomic_reachable",
+            "C01_extend_atomic", "C01_value_setter_atomic",
             "C01_no_internal_error", "C01_example", "C01_example_atomic"]
 
 # ----------------------------------------------------------------------------- scenarios
@@ -274,11 +275,9 @@ def apply_op(ctx, op):
         elif name == "setvalue":
             items = [ctx.pool[e] for e in op[3]]
             ns = ctx.owners[o]
-            if isinstance(ns, model.SubmodelElementList):
-                ns.value = items
-            else:
-                del S[:]
-                S.extend(items)
+            if not isinstance(ns, model.SubmodelElementList):
+                return [9]                       # only SubmodelElementList has the value setter
+            ns.value = items
         else:
             raise AssertionError(name)
         return [0]
@@ -453,6 +452,16 @@ SINGLE = {"add", "remove", "discard", "pop", "popat", "insert", "setitem", "deli
           "owneradd", "ownerremove", "append"}
 
 
+def canon_snapshot(ctx):
+    """snapshot with generated idShorts replaced by a placeholder"""
+    res = []
+    for t in snapshot(ctx):
+        if len(t) == 3 and isinstance(t[1], str) and t[1].startswith(GENPFX):
+            t = (t[0], "<generated>", t[2])
+        res.append(t)
+    return res
+
+
 def run_sdk(case, with_trace=True):
     """case = {kind, pool, ops}.  Returns (trace, failures) with failures = [(step, class, message)]."""
     ctx = Ctx(case["kind"], [tuple(p) for p in case["pool"]])
@@ -460,9 +469,15 @@ def run_sdk(case, with_trace=True):
     for k, op in enumerate(case["ops"]):
         op = tuple(op)
         before = snapshot(ctx)
+        cbefore = canon_snapshot(ctx)
         out = apply_op(ctx, op)
         if out[0] != 0 and op[0] in SINGLE and snapshot(ctx) != before:
             fails.append((k, f"{op[0]}:not-atomic", f"{op[0]} raised (code {out[0]}) but the namespace or the element changed"))
+        if out[0] not in (0, 9) and op[0] in ("extend", "iadd") and snapshot(ctx) != before:
+            fails.append((k, f"{op[0]}:not-atomic", f"rejected {op[0]} (code {out[0]}) did not leave the set as it was"))
+        if out[0] not in (0, 9) and op[0] == "setvalue" and canon_snapshot(ctx) != cbefore:
+            fails.append((k, "setvalue:not-restored", f"rejected value setter (code {out[0]}) did not restore the "
+                                                      "previous content (same elements, order, parent)"))
         if out[0] == 98:
             fails.append((k, f"{op[0]}:exception-class", f"{op[0]} raised an undocumented exception class"))
         try:
@@ -651,10 +666,22 @@ def gen_case(rng, kind, maxlen, extra=False):
             op = ("delitem", o, j, z)
         elif x < 0.93:
             op = ("delslice", o, j, a, b)
-        elif x < 0.96:
+        elif x < 0.945:
             op = ("popat", o, j, z)
         else:
-            op = ("setvalue", o, j, some(rng.choice([0, 1, 2, 3])))
+            # extend / += / the value setter: mostly free (acceptable) elements first, sometimes a refused one
+            free = [i for i, y_ in enumerate(ctx.pool) if y_.parent is None] or list(range(n))
+            items = [rng.choice(free) if rng.random() < 0.75 else rng.randrange(n) for _ in range(rng.choice([0, 1, 2, 3, 3]))]
+            if kind == "sml" and x >= 0.97:
+                cur = [ctx.eid(y_) for y_ in S]
+                y = rng.random()
+                if y < 0.2:
+                    items = cur                                  # lst.value = lst.value
+                elif y < 0.4:
+                    items = cur[::-1] + items[:1]
+                op = ("setvalue", o, j, items)
+            else:
+                op = (rng.choice(["extend", "iadd"]), o, j, items)
         do(op)
     return {"kind": kind, "pool": [list(p) for p in pool], "ops": [list(o) for o in ops]}
 
@@ -714,6 +741,8 @@ def coq_op(case, op):
         return f"DelSlice {r} {oz(op[3])} {oz(op[4])}"
     if n == "setvalue":
         return f"SetValue {r} {natl(op[3])}"
+    if n in ("extend", "iadd"):
+        return f"Extend {r} {natl(op[3])}"
     raise AssertionError(n)
 
 
